@@ -99,7 +99,8 @@ def run_shard(spec):
             model = fbm.clone()
             hist = SM.gen_history(rnd, model, UNIVERSE, rnd.randint(8, 30), tag="ov",
                                   weights={"store": 6, "store_rmw": 2, "store_metadata": 2, "store_metadata_rmw": 2, "remove": 4,
-                                           "makedir": 2, "removedir": 2, "removedir_recursive": 2, "store_metadata_absent": 2})
+                                           "makedir": 2, "removedir": 2, "removedir_recursive": 2, "store_metadata_absent": 2,
+                                           "removedir_nonempty": 1})
             fbkeys = set(fbm.files) | set(fbm.dirs)
             for o in hist:
                 counters["opkind." + o[0]] = counters.get("opkind." + o[0], 0) + 1
